@@ -129,9 +129,12 @@ TEXT.update({
  },
  "C12": {
   "engine": "M",
-  "technique": "typed symbolic evaluation with path merging of the MIR of <DicomTime as AsRange>::earliest/latest and the accessors, z3 bit-vectors; chrono's constructor as a documented contract",
-  "level": "For every DicomTime its constructors admit (4 precisions, second 0-60, fraction of 1-6 digits) the solver shows earliest()/latest() are Ok and equal the component-wise instant; leap second treated as its own query.",
-  "note": "only the time range clause: text round trips, dates, date-times, zones and range text are outside; NaiveTime::from_hms_micro_opt is a contract taken from chrono's documentation, models are replayed natively",
+  "technique": "typed symbolic evaluation with path merging of the MIR of <DicomTime as AsRange>::earliest/latest (z3 bit-vectors); symbolic execution of the MIR of the constructors, to_encoded, *_byte_len and the partial parsers "
+               "(core::fmt through a template interpreter, chrono's FixedOffset from its MIR) with z3 deciding every path",
+  "level": "For every DicomTime its constructors admit (4 precisions, second 0-60, fraction of 1-6 digits) the solver shows earliest()/latest() are Ok and equal the component-wise instant. For every date, time and date-time "
+           "value that the constructors return for symbolic arguments (offsets -12:00..+14:00), the text of to_encoded parses back (parse_*_partial) to a structurally equal value with nothing left over, and has the length "
+           "the value reports.",
+  "note": "date / date-time ranges and the range text A-B are outside; NaiveTime::from_hms_micro_opt is a contract taken from chrono's documentation; models are replayed natively",
  },
  "C16": {
   "engine": "M",
